@@ -40,8 +40,30 @@ func (k Case) handed() [][]int {
 		return k.use
 	case k.Handed == "padded":
 		return padded(k.M)
+	case k.Handed == "derived":
+		return derived(k.M)
 	}
 	return k.M
+}
+
+// derived returns a matrix equal to m whose first and last rows are views of one block laid out row by
+// row (as matrix generators produce them) while the rows in between were replaced by separately allocated
+// ones (a copy-on-write edit of a shared matrix); the block's own middle rows hold other values.
+func derived(m [][]int) [][]int {
+	n := len(m)
+	block := make([]int, n*n)
+	for i := range block {
+		block[i] = 44
+	}
+	out := make([][]int, n)
+	for i := range out {
+		out[i] = block[i*n : (i+1)*n] // capacity to the end of the block, as a plain reslice leaves it
+		if i > 0 && i < n-1 {
+			out[i] = make([]int, n)
+		}
+		copy(out[i], m[i])
+	}
+	return out
 }
 
 func padded(m [][]int) [][]int {
@@ -366,8 +388,20 @@ func evaluate(k Case) (out []finding) {
 		}
 	}
 	// Format: two equal-length rows that reduce to the aligned sub-sequences
-	rows := align.Format(seqOf(k.Letters, k.R, false).(*linear.Seq), seqOf(k.Letters, k.Q, false).(*linear.Seq), ps, alphabet.Letter(k.Letters[0]))
+	fr, fq := seqOf(k.Letters, k.R, false).(*linear.Seq), seqOf(k.Letters, k.Q, false).(*linear.Seq)
+	rows := align.Format(fr, fq, ps, alphabet.Letter(k.Letters[0]))
 	ra, rb := fmt.Sprint(rows[0]), fmt.Sprint(rows[1])
+	// the rows are the caller's to write on: the aligned sequences stay what they were
+	for _, row := range rows {
+		if ls, ok := row.(alphabet.Letters); ok {
+			for i := range ls {
+				ls[i] = '!'
+			}
+		}
+	}
+	if fr.Seq.String() != k.R || fq.Seq.String() != k.Q {
+		add("C09", "format-rows-share-the-sequences", "writing on the rows returned by Format changed the aligned sequences to %q / %q", fr.Seq, fq.Seq)
+	}
 	if len(ra) != len(rb) {
 		add("C09", "format-length", "Format rows %q and %q differ in length", ra, rb)
 	} else {
@@ -477,7 +511,7 @@ func Main(prop string) {
 
 func run(c *enum.Ctx, prop string) {
 	if prop == "C08" {
-		c.Rule("alphabet '-ac' (gap first): every ordered pair of non-empty sequences of length <=3 over {a,c}; every 3x3 matrix with substitution entries in {-1,0,1} and the four gap entries in {0,-1}; gap-open in {0,-1,-2}; the six aligners; a third of the matrices reach the aligner in a matrix value that earlier alignments used with other contents (rewritten in place), a fifth embedded in a matrix two rows/columns larger than the alphabet (extra cells 55), and one goroutine sweeps every 7th matrix through a single matrix value, all aligners applied again after each rewrite (thorough: lengths <=4, substitution entries in {-2..2} on a sliced sub-grid, gap entries {0,-1,-2}, and the alphabet '-acg' with lengths <=2); oracle: the score of the RETURNED PATH recomputed from the letters equals the optimum of an independent reference DP (global / local / whole-query-ending-at-the-same-reference-position; affine: three-state with and without gap-to-gap transitions so that the two defect classes are told apart); non-trivial = cases whose optimal alignment contains at least one gap or mismatch")
+		c.Rule("alphabet '-ac' (gap first): every ordered pair of non-empty sequences of length <=3 over {a,c}; every 3x3 matrix with substitution entries in {-1,0,1} and the four gap entries in {0,-1}; gap-open in {0,-1,-2}; the six aligners; a third of the matrices reach the aligner in a matrix value that earlier alignments used with other contents (rewritten in place), a fifth embedded in a matrix two rows/columns larger than the alphabet (extra cells 55), a fifth as a copy-on-write edit of a block-allocated matrix (outer rows views of one block, inner rows replaced), and one goroutine sweeps every 7th matrix through a single matrix value, all aligners applied again after each rewrite (thorough: lengths <=4, substitution entries in {-2..2} on a sliced sub-grid, gap entries {0,-1,-2}, and the alphabet '-acg' with lengths <=2); oracle: the score of the RETURNED PATH recomputed from the letters equals the optimum of an independent reference DP (global / local / whole-query-ending-at-the-same-reference-position; affine: three-state with and without gap-to-gap transitions so that the two defect classes are told apart); non-trivial = cases whose optimal alignment contains at least one gap or mismatch")
 	} else {
 		c.Rule("every alignment produced in C08's space: monotone abutting path of equal-length blocks, one-sided gaps and empty zero-score pairs; global spans both sequences, local/fitted within bounds; per maximal run the reported scores equal the score recomputed from letters, matrix and gap parameters (gap-open once per run); plain and quality letters give identical pairs; align.Format gives two equal-length rows that reduce to the aligned sub-sequences; plus ill-typed calls (an illegal letter at every position of either sequence, distinct alphabet objects, mixed Letters/QLetters, nil alphabet, alphabet without leading gap, ragged / non-square / undersized / empty matrices) which must return an error and never panic; non-trivial = all")
 	}
@@ -525,6 +559,8 @@ func run(c *enum.Ctx, prop string) {
 			defer func() { scratchMatrices <- use }()
 		case mi%5 == 1:
 			handedAs = "padded"
+		case mi%5 == 2:
+			handedAs = "derived"
 		}
 		for _, al := range aligners {
 			ops := []int{0}
